@@ -295,10 +295,10 @@ class Gen:
             outer = self.visible_consts(fr)
             v = r.choice(outer) if outer and r.random() < 0.25 else self.name("it")   # sometimes shadows a constant
             child.consts.append(v)
-            a = r.choice([0, 0, 1, 3])
+            a = r.choice([0, 0, 1, 3, 5, 9, 0x7E, 0xFF, -2])
             trip = r.choice([0, 1, 2, 3, 5])
-            bound_b = E(a + trip) if r.random() < 0.7 or not self.visible_consts(fr) else E(a + trip)
-            return [{"k": "for", "v": v, "a": E(a), "b": bound_b, "body": self.body(child, depth + 1, r.randint(1, 4))}]
+            bound_b = E(a + trip)
+            return [{"k": "for", "v": v, "a": E(a) if a >= 0 else [["un", "-"], num(-a)], "b": bound_b, "body": self.body(child, depth + 1, r.randint(1, 4))}]
         if kind == "if_":
             consts = self.visible_consts(fr)
             c = r.random()
